@@ -22,17 +22,26 @@ class QasmExporter(QCircuitExporter):
     def __init__(self, version=3):
         self.version = version
 
+    @staticmethod
+    def _qubit_name(_selfqc, i: int) -> str:
+        """Name of the i-th qubit; a qubit whose name was taken over by another
+        qubit (an argument called like an intermediate) still needs a parameter"""
+        try:
+            return _selfqc.get_key_by_index(i)
+        except Exception:
+            return f"_q{i}"
+
     def export_v3(self, _selfqc, mode: Literal["circuit", "gate"]):
         gate_qasm = f"gate {_selfqc.name} "
         gate_qasm += " ".join(
-            _selfqc.get_key_by_index(i) for i in range(_selfqc.num_qubits)
+            self._qubit_name(_selfqc, i) for i in range(_selfqc.num_qubits)
         )
         gate_qasm += " {\n"
         for g, ws, p in _selfqc.gates:
             if issubclass(g.__class__, gates.NopGate):
                 continue
 
-            qbs = list(map(lambda gq: _selfqc.get_key_by_index(gq), ws))
+            qbs = list(map(lambda gq: self._qubit_name(_selfqc, gq), ws))
             if p:
                 gate_qasm += f'\t{g.__name__.lower()}({p:.2f}) {" ".join(qbs)}\n'
             else:
@@ -56,14 +65,14 @@ class QasmExporter(QCircuitExporter):
     def export_v2(self, _selfqc, mode: Literal["circuit", "gate"]):
         gate_qasm = f"gate {_selfqc.name} "
         gate_qasm += " ".join(
-            _selfqc.get_key_by_index(i) for i in range(_selfqc.num_qubits)
+            self._qubit_name(_selfqc, i) for i in range(_selfqc.num_qubits)
         )
         gate_qasm += " {\n"
         for g, ws, p in _selfqc.gates:
             if issubclass(g.__class__, gates.NopGate):
                 continue
 
-            qbs = list(map(lambda gq: _selfqc.get_key_by_index(gq), ws))
+            qbs = list(map(lambda gq: self._qubit_name(_selfqc, gq), ws))
             if p:
                 gate_qasm += f'\t{g.__name__.lower()}({p:.2f}) {" ".join(qbs)}\n'
             else:
